@@ -18,7 +18,7 @@ CHECKS = {
  "C10": hc("3/C10", "All 9-scan histories (<= 2 / 3 deviations) with the annotation set/emptied/removed at any slot; safety predicate on every removal plus a metamorphic twin execution without annotations: identical taint/untaint/cloud actions, removals differing exactly by the protected nodes."),
  "C11": hc("3/C11", "All histories (<= 2 / 3 deviations) driving a dry group through every decision branch with either switch, with tagging, auto-discovery and from zero nodes: empty write journal from provider construction on; A dry / B live compared with a twin in which A is live."),
  "C12": hc("3/C12", "All 6-scan histories (<= 2 / 3 deviations or faults confined to group a) over 2 and 3 groups in every processing order including the default group: write attribution, and every other group's journal equal to the unperturbed execution; only the not-in-group condition may abort the loop."),
- "C05": hc("3/C05", "Bounded-exhaustive sweep of the real percent and delta arithmetic over node counts x node sizes x thresholds 1..100,120,150,200 x requests exactly on and +/-1 unit around every point where the minimal node count changes (CPU-, memory-bound, both), with an exact integer oracle; end-to-end scale-from-zero mini-histories on the real controller. The quantifier is over inputs; exhaustive enumeration of the boundary grid is the deciding step.", engine="G", level="exploration", technique=G),
+ "C05": hc("3/C05", "Bounded-exhaustive sweep of the real percent and delta arithmetic over node counts x node sizes x thresholds 1..100,120,150,200 x requests exactly on and +/-1 unit around every point where the minimal node count changes (CPU-, memory-bound, both; plus clusters of 100..1000 big nodes), with an exact integer oracle; end-to-end: single scans of mixed groups, scale-from-zero mini-histories (node size changing before the group drains), and mixed groups explored with every failing untaint write and with the max-age trigger coinciding with high utilisation.", engine="G+H", technique=G+"; plus "+H),
  "C08": hc("3/C08", "Every creation-time assignment x list order x taint count for up to 4 (5) nodes, each explored with a failure at every get/update position of the taint loop (deviation-bounded DFS): no untainted, non-failed node is strictly older than a tainted one."),
  "C13": hc("3/C13", "Every pod shape of a 1922-shape universe, pairs/triples over stated sub-universes, every node multiset, in every permutation, through the real calculators against an independent exact parser; end-to-end gauge read-back over every order of a mixed node list.", engine="G", level="exploration", technique=G),
  "C14": hc("3/C14", "Every pod shape of a ~240k-shape universe (selectors x affinity structures x owners x static annotation) and 7 node label maps through the real filter constructors and filtered listers, compared with the predicate of the statement.", engine="G", level="exploration", technique=G),
